@@ -172,7 +172,7 @@ def main():
         ],
         "checks": checks,
         "not_applicable": na,
-        "notes": "Known and fixed findings: /verif/known_findings.txt. Regression inputs: /verif/corpus/<ID>/. Seeded mutants used to test sensitivity: /verif/seeded/.",
+        "notes": "Known and fixed findings: /verif/known_findings.txt (witnesses of known findings: /verif/findings/<ID>/). Regression inputs: /verif/corpus/<ID>/. Seeded changes used to test sensitivity (240, each with patch, demonstration and what was run): /verif/seeded/. /verif/vendor/proptest is proptest 1.11.0 with one patched function (PassThrough fork; used by the entropy-driven fuzz target only, the default generators are untouched). Checks are meant to be run one at a time on an otherwise quiet machine: under heavy load (load average above ~40 on 16 cores) the pty-based checks C03, C16, C17 may end inconclusive (exit 2), never with a violation.",
     }
     json.dump(manifest, open(os.path.join(root,"MANIFEST.json"),"w"), indent=1)
     print("wrote MANIFEST.json with", len(checks), "checks,", len(na), "not applicable")
